@@ -508,6 +508,40 @@ def std_replay(ctx, path, tags=("verif",)):
     ctx.count(case)
 
 
+def shared_use_phase(ctx, lines, expected, what, g=8, repeat=6, gomaxprocs=8, norm=None):
+    """the same calls issued by g goroutines sharing the configuration and (per vector specification)
+    the caller-owned input slices; every result must equal the sequential one.  A function of its
+    inputs gives the same answer when other calls run beside it."""
+    if not lines:
+        return
+    rep, exp = [], []
+    for l, e in zip(lines, expected):
+        rep += [l] * repeat
+        exp += [e] * repeat
+    # interleave the repetitions of different calls
+    order = sorted(range(len(rep)), key=lambda i: (i % repeat, i // repeat))
+    rep = [rep[i] for i in order]
+    exp = [exp[i] for i in order]
+    env = dict(os.environ, VERIF_CONC=str(g), GOMAXPROCS=str(gomaxprocs))
+    outs, err, rc = run_raw(ctx.harness(), rep, env=env, timeout=600)
+    if rc is None:
+        ctx.violation("%s: concurrent use did not terminate" % what, {"case": "shared-use", "lines": rep, "conc": g})
+        return
+    if rc != 0 or len(outs) != len(rep):
+        ctx.violation("%s: concurrent use crashed rc=%s" % (what, rc), {"case": "shared-use", "lines": rep, "stderr": err[-3000:]})
+        return
+    bad = 0
+    for l, a, b in zip(rep, outs, exp):
+        aa, bb = (norm(a), norm(b)) if norm else (a, b)
+        if aa != bb:
+            bad += 1
+            if bad <= 3:
+                ctx.violation("%s: result differs when the same call runs beside others (shared configuration / inputs): %s"
+                              % (what, l[:120]), {"case": l, "impl_concurrent": a, "sequential": b, "conc": g, "lines": rep})
+    ctx.evaluations += len(rep)
+    ctx.dist["%s shared-use x%d" % (what, g)] += len(rep)
+
+
 def run_raw(exe, lines, env=None, timeout=1800, cpus=None):
     """single process; returns (outputs, stderr, returncode) ; returncode None on timeout"""
     cmd = [exe]
